@@ -602,6 +602,146 @@ theorem beginBlock_unscheduled (s s' : State) (envOf : CId → LaunchEnv) (c : C
   have := launch_counts_conserved s c
   omega
 
+/-! ### what the launch loop does to the consumers it takes -/
+
+theorem launchRecord_id (s : State) (c : CId) (env : LaunchEnv) (x : Consumer)
+    (h : launchRecord s c env = some x) : x.id = c := by
+  unfold launchRecord at h
+  simp only [] at h
+  repeat' (split at h)
+  all_goals first
+    | (injection h with h; rw [← h]; exact get_id s c)
+    | cases h
+
+/-- a successful launch leaves the consumer launched and nobody else's record touched -/
+theorem launchBind_effect (s s' : State) (c : CId) (x : Consumer) (env : LaunchEnv) (hid : x.id = c)
+    (h : launchBind s c x env = some s') :
+    (s'.get c).phase = .launched ∧ ∀ c', c' ≠ c → s'.get c' = s.get c' := by
+  unfold launchBind at h
+  split at h
+  · split at h
+    · cases h
+    · split at h
+      · cases h
+      · injection h with h; subst h
+        constructor
+        · show ((s.set _).get c).phase = _
+          rw [get_set_id]; exact hid
+        · intro c' hc'
+          show (s.set _).get c' = _
+          rw [get_set_other]; exact fun e => hc' (e.trans hid)
+  · split at h
+    · cases h
+    · split at h
+      · cases h
+      · split at h
+        · cases h
+        · injection h with h; subst h
+          constructor
+          · show ((s.set _).get c).phase = _
+            rw [get_set_id]; exact hid
+          · intro c' hc'
+            show (s.set _).get c' = _
+            rw [get_set_other]; exact fun e => hc' (e.trans hid)
+
+/-- what an attempted launch leaves: launched, or back to registered with the spawn time cleared -/
+def Attempted (x : Consumer) : Prop := x.phase = .launched ∨ (x.phase = .registered ∧ x.spawn = 0)
+
+/-- one iteration of BeginBlockLaunchConsumers -/
+def launchStep (envOf : CId → LaunchEnv) (s : State) (c : CId) : Option State :=
+  match launchConsumer s c (envOf c) with
+  | some s' => some s'
+  | none => launchFallback s c
+
+theorem launchStep_effect (envOf : CId → LaunchEnv) (s s' : State) (c : CId)
+    (h : launchStep envOf s c = some s') :
+    Attempted (s'.get c) ∧ ∀ c', c' ≠ c → s'.get c' = s.get c' := by
+  unfold launchStep at h
+  cases hl : launchConsumer s c (envOf c) with
+  | some s1 =>
+    rw [hl] at h
+    injection h with h; subst h
+    unfold launchConsumer at hl
+    cases hr : launchRecord s c (envOf c) with
+    | none => rw [hr] at hl; cases hl
+    | some x =>
+      rw [hr] at hl
+      have := launchBind_effect s s1 c x (envOf c) (launchRecord_id s c _ x hr) hl
+      exact ⟨Or.inl this.1, this.2⟩
+  | none =>
+    rw [hl] at h
+    unfold launchFallback at h
+    by_cases hc : ((s.get c).initRev != (s.get c).chainRev) = true
+    · simp only [hc, if_true] at h; cases h
+    · simp only [hc, Bool.false_eq_true, if_false, Option.some.injEq] at h
+      subst h
+      constructor
+      · right
+        rw [get_set_id]
+        · exact ⟨rfl, rfl⟩
+        · exact get_id s c
+      · intro c' hc'
+        rw [get_set_other]
+        exact fun e => hc' (e.trans (get_id s c))
+
+abbrev launchLoop (envOf : CId → LaunchEnv) (ids : List CId) (acc : Option State) : Option State :=
+  ids.foldl (fun (acc : Option State) c =>
+    match acc with
+    | none => none
+    | some s => launchStep envOf s c) acc
+
+theorem launchLoop_none (envOf : CId → LaunchEnv) (ids : List CId) : launchLoop envOf ids none = none := by
+  induction ids with
+  | nil => rfl
+  | cons d r ih => exact ih
+
+theorem launchLoop_effect (envOf : CId → LaunchEnv) (ids : List CId) (s s' : State) (c : CId)
+    (h : launchLoop envOf ids (some s) = some s') :
+    (c ∈ ids → Attempted (s'.get c)) ∧ (¬ c ∈ ids → s'.get c = s.get c) ∧
+    (Attempted (s.get c) → Attempted (s'.get c)) := by
+  induction ids generalizing s with
+  | nil =>
+    have : s = s' := by simpa [launchLoop] using h
+    subst this
+    exact ⟨fun hm => (by cases hm), fun _ => rfl, id⟩
+  | cons d rest ih =>
+    have hstep : launchLoop envOf (d :: rest) (some s) = launchLoop envOf rest (launchStep envOf s d) := rfl
+    rw [hstep] at h
+    cases hs : launchStep envOf s d with
+    | none => rw [hs, launchLoop_none] at h; cases h
+    | some s1 =>
+      rw [hs] at h
+      obtain ⟨hA, hO⟩ := launchStep_effect envOf s s1 d hs
+      obtain ⟨i1, i2, i3⟩ := ih s1 h
+      have keep : Attempted (s.get c) → Attempted (s1.get c) := by
+        intro ha
+        by_cases hcd : c = d
+        · rw [hcd]; exact hA
+        · rw [hO c hcd]; exact ha
+      refine ⟨?_, ?_, fun ha => i3 (keep ha)⟩
+      · intro hm
+        rcases List.mem_cons.mp hm with rfl | hm'
+        · exact i3 hA
+        · exact i1 hm'
+      · intro hn
+        have hcd : c ≠ d := fun e => hn (by rw [e]; exact List.mem_cons_self)
+        rw [i2 (fun hm => hn (List.mem_cons_of_mem _ hm)), hO c hcd]
+
+theorem beginBlockLaunch_eq (s : State) (envOf : CId → LaunchEnv) :
+    beginBlockLaunch? s envOf =
+      launchLoop envOf (tqConsume s.spawnQ s.now 200).1 (some { s with spawnQ := (tqConsume s.spawnQ s.now 200).2 }) := rfl
+
+/-- over a whole BeginBlock: every consumer taken from the launch queue ends launched or back in
+    the registered phase with its spawn time cleared (never left initialized without a schedule
+    entry); every other consumer's record is untouched -/
+theorem beginBlock_attempted (s s' : State) (envOf : CId → LaunchEnv) (c : CId)
+    (h : beginBlockLaunch? s envOf = some s') :
+    (c ∈ (tqConsume s.spawnQ s.now 200).1 → Attempted (s'.get c)) ∧
+    (¬ c ∈ (tqConsume s.spawnQ s.now 200).1 → s'.get c = s.get c) := by
+  rw [beginBlockLaunch_eq] at h
+  have := launchLoop_effect envOf _ _ s' c h
+  exact ⟨this.1, this.2.1⟩
+
 end Queue
 
 end ICS.Props.C10
